@@ -170,7 +170,7 @@ theorem C05.loop_eligibility_pinned :
     loopEligibility = ["name != \"\" && !s.NoReg && s.env.HasRegisters() && !object.Constant(name) && !object.ReservedName(name) && !s.env.IsOwnFunctionName(name)"] := rfl
 
 theorem C05.param_eligibility_pinned :
-    paramEligibility = ["!s.NoReg && pval.Type() == object.INTEGER && env.HasRegisters() && !object.Constant(param.Value().Literal()) && !object.ReservedName(param.Value().Literal()) && !ownName"] ∧
+    paramEligibility = ["!s.NoReg && pval.Type() == object.INTEGER && env.HasRegisters() && !object.Constant(param.Value().Literal()) && !object.ReservedName(param.Value().Literal()) && !ownName && !shadowed"] ∧
     paramOwnName = ["fn.Name != nil && fn.Name.Literal() == param.Value().Literal()"] := ⟨rfl, rfl⟩
 
 end Grol.Generated.RegFacts
